@@ -81,7 +81,7 @@ def gen_trace(pid, name, profile, binname, args, timeout=3000):
     return out
 
 
-def shard_file(path, per_shard, max_shards=256):
+def shard_file(path, per_shard, max_shards=256, boundary=None):
     """split an ndjson file into shards of <= per_shard lines; returns [(shard_path, first_line_no, nlines)]"""
     shards = []
     base = path[:-7]
@@ -93,6 +93,11 @@ def shard_file(path, per_shard, max_shards=256):
         lineno = 0
         for line in f:
             lineno += 1
+            if cur is not None and n >= per_shard and (boundary is None or line.startswith(boundary)):
+                cur.close()
+                shards.append((sp, start, n))
+                cur = None
+                idx += 1
             if cur is None:
                 sp = "%s.s%03d.ndjson" % (base, idx)
                 cur = open(sp, "w")
@@ -100,11 +105,6 @@ def shard_file(path, per_shard, max_shards=256):
                 n = 0
             cur.write(line)
             n += 1
-            if n >= per_shard:
-                cur.close()
-                shards.append((sp, start, n))
-                cur = None
-                idx += 1
         if cur is not None:
             cur.close()
             shards.append((sp, start, n))
@@ -145,7 +145,7 @@ def validate(pid, traces, prop=None, spec="Trace"):
     prop = prop or pid
     jobs = []
     for path, dom, per in traces:
-        for sp, start, n in shard_file(path, per):
+        for sp, start, n in shard_file(path, per, boundary='{"k":"wreset"' if "wrap" in os.path.basename(path) else None):
             jobs.append((sp, dom, start, n, path))
     stats = dict(events=0, states=0, transitions=0, shards=len(jobs))
     rejects = []
@@ -160,7 +160,15 @@ def validate(pid, traces, prop=None, spec="Trace"):
             with open(sp) as f:
                 lines = f.readlines()
             for idx, dev, note in r["rejects"]:
-                rj.append(dict(event=json.loads(lines[idx - 1]), dev=dev, note=note, trace=path, line=start + idx - 1))
+                ev = json.loads(lines[idx - 1])
+                rec = dict(event=ev, dev=dev, note=note, trace=path, line=start + idx - 1)
+                if ev.get("k") == "w":
+                    # a step of a Wrapping<F> program: keep the program up to this step as context
+                    j = idx - 1
+                    while j > 0 and not lines[j].startswith('{"k":"wreset"'):
+                        j -= 1
+                    rec["program"] = [json.loads(x) for x in lines[j:idx]]
+                rj.append(rec)
         os.remove(sp)
         return r, rj
 
